@@ -747,8 +747,9 @@ Section NoOwn.
           destruct (ms_draw W H fails _ true None now _) as [[[m2 e] c'] ok]. cbn [fst].
           eapply no_own_bars; [|exact Hn]. reflexivity. }
         cbn [fst] in *. apply no_own_upd_gen; [|exact Hs1]. intros x _ tg. cbn. discriminate. }
-      destruct loc as [|i|i|r|r]; try destruct (b_target (get_bar s r)); try exact Hn;
-        (destruct (ms_insert (s_mp s) _) as [[m1 idx1]|]; [cbn [fst]; apply Hgen | exact Hn]).
+      destruct (b_target (get_bar s b)); [| |exact Hn];
+        (destruct loc as [|i|i|r|r]; try destruct (b_target (get_bar s r)); try exact Hn;
+         (destruct (ms_insert (s_mp s) _) as [[m1 idx1]|]; [cbn [fst]; apply Hgen | exact Hn])).
     - (* ORemove *)
       destruct (b_target (get_bar s b)) as [|tg|idx]; try exact Hn.
       match goal with |- context [ms_draw W H fails ?a ?b ?c ?d ?e] => destruct (ms_draw W H fails a b c d e) as [[[m2 e'] c'] ok] end.
@@ -799,9 +800,9 @@ Proof.
     + destruct (finished (get_bar s b)); [constructor | apply draw_actions_wf].
     + destruct (b_target (get_bar s b)); repeat constructor.
   - (* OInsert *)
-    match goal with |- Forall _ (match ?x with Some l => _ | None => _ end) => destruct x as [l|] end; [|constructor].
-    destruct (ms_insert (s_mp s) l); [|constructor].
-    constructor; [exact I|]. destruct (b_target (get_bar s b)); repeat constructor.
+    destruct (b_target (get_bar s b)); [| |constructor];
+      (match goal with |- Forall _ (match ?x with Some l => _ | None => _ end) => destruct x as [l|] end; [|constructor];
+       destruct (ms_insert (s_mp s) l); repeat constructor).
   - (* ORemove *) destruct (b_target (get_bar s b)); repeat constructor.
   - (* OMPrintln *) cbn. split; [reflexivity | apply mp_println_texts].
   - constructor.
@@ -1128,17 +1129,15 @@ Section LogStep.
       split; [|apply J_mark; exact HJ1].
       destruct (ms_order m1) as [|first rest]; [exact Hl1|]. destruct (idx =? first); [exact Hl1 | exact Hl1].
     - (* OInsert *)
-      match goal with |- context [match ?x with Some l => _ | None => _ end] => destruct x as [l|] end; [|exact Hnil].
-      destruct (ms_insert (s_mp s) l) as [[m1 idx]|] eqn:Ei; [|exact Hnil].
-      pose proof (J_insert _ _ _ _ HJ Ei) as HJ1.
-      match goal with |- context [g_run W H now (s_mp s) (s_calls s) (AInsert l :: ?r) g] =>
-        destruct (run_cons_nodraw now (s_mp s) (s_calls s) (AInsert l) r m1) as [E1 E2];
-          [cbn [mp_exec1]; rewrite Ei; reflexivity|]; rewrite E1, E2; cbn [g_act] end.
-      destruct (b_target (get_bar s b)) as [|tg|idx0].
-      + cbn. rewrite ?app_nil_r. auto.
-      + cbn. rewrite ?app_nil_r. auto.
-      + pose proof (log_store_draw W H now m1 (s_calls s) g idx0 [] [] true HJ1 ltac:(reflexivity)) as Hl.
-        cbv zeta in Hl. cbn [map] in Hl. exact Hl.
+      destruct (b_target (get_bar s b)) as [|tg|idx0]; [| |exact Hnil];
+        (match goal with |- context [match ?x with Some l => _ | None => _ end] => destruct x as [l|] end; [|exact Hnil];
+         match goal with |- context [ms_insert (s_mp s) ?l0] =>
+           destruct (ms_insert (s_mp s) l0) as [[m1 idx]|] eqn:Ei; [|exact Hnil];
+           pose proof (J_insert _ _ _ _ HJ Ei) as HJ1;
+           destruct (run_cons_nodraw now (s_mp s) (s_calls s) (AInsert l0) [] m1) as [E1 E2];
+             [cbn [mp_exec1]; rewrite Ei; reflexivity|]; rewrite E1, E2; cbn [g_act]
+         end;
+         cbn; rewrite ?app_nil_r; auto).
     - (* ORemove *)
       destruct (b_target (get_bar s b)) as [|tg|idx]; [exact Hnil | exact Hnil |].
       destruct (run_cons_nodraw now (s_mp s) (s_calls s) (ARemove idx) [ADraw true None] (ms_remove_idx (s_mp s) idx) eq_refl) as [E1 E2].
